@@ -70,6 +70,11 @@ type SelResult struct {
 	Ok    bool
 }
 
+// SyncHook: set by the cooperative scheduler; called by the stand-ins of sync.WaitGroup / Mutex / RWMutex (package vsync)
+// with the object, the operation (wg-add, wg-wait, lock, unlock, rlock, runlock) and the delta of wg-add. It returns
+// false when the scheduler does not handle the call (then the real primitive is used).
+var SyncHook func(obj interface{}, op string, n int) bool
+
 // SelectHook, RecvHook, CloseHook, GoHook: set by the cooperative scheduler.
 var SelectHook func(hasDefault bool, cases []SelCase) SelResult
 var RecvHook func(ch interface{}) (interface{}, bool)
